@@ -7,6 +7,7 @@ import FcpptProofs.C03.Fuel
 import FcpptProofs.C03.Labels
 import FcpptProofs.C03.Names
 import FcpptProofs.C03.Leaves
+import FcpptProofs.C03.Index
 /-!
 # C03 — property theorems (see notes/C03.md for the clause-by-clause coverage)
 
@@ -434,6 +435,30 @@ theorem parseTop_fuel_monotone {f g : Nat} {p : OP} {args : List String} (hfg : 
 theorem driver_fuel_is_enough {p : OP} {args : List String} (hw : p.wfMany = true) {g : Nat}
     (hg : fuelFor p args.length ≤ g) : parseTop g p args = parseTop (fuelFor p args.length) p args :=
   parseTop_fuel_monotone hg (parseTop_terminates hw)
+
+/-! ## the indices are bookkeeping only -/
+
+/-- **the control flow never looks at an index**: two states with the same texts give the same result up to the indices
+(`zeroRes` sets every index in the remaining state, in the state of a `missing_error` and in the log to 0) — same record,
+same error kind and text, same texts left over, same leaf labels in the log.  This is what makes the accounting theorems
+statements about the C++, which has no indices. -/
+theorem parse_ignores_indices (f : Nat) (p : OP) (s1 s2 : List Arg) (c : Ctx) (h : s1.map Prod.snd = s2.map Prod.snd) :
+    zeroRes (parse f p s1 c) = zeroRes (parse f p s2 c) :=
+  parse_zero f p s1 s2 c ((zero_eq_iff s1 s2).mpr h)
+
+/-- … spelled out for a success -/
+theorem parse_ignores_indices_ok {f : Nat} {p : OP} {s1 s2 : List Arg} {c : Ctx} {t1 : List Arg} {r : Rec} {l1 : Log}
+    (h : s1.map Prod.snd = s2.map Prod.snd) (h1 : parse f p s1 c = .ok (t1, r, l1)) :
+    ∃ t2 l2, parse f p s2 c = .ok (t2, r, l2) ∧ t1.map Prod.snd = t2.map Prod.snd ∧ l1.map Prod.snd = l2.map Prod.snd := by
+  have hz := parse_ignores_indices f p s1 s2 c h
+  rcases zeroRes_cases hz with ⟨u1, r', m1, u2, m2, hA, hB, hu, hm⟩ | ⟨e1, e2, hA, _, _⟩
+  · rw [h1] at hA
+    injection hA with hA; injection hA with a1 hA; injection hA with a2 a3
+    subst a1 a2 a3
+    refine ⟨u2, m2, hB, (zero_eq_iff _ _).mp hu, ?_⟩
+    have := congrArg (List.map Prod.snd) hm
+    simpa [zeroLog, List.map_map, Function.comp_def] using this
+  · rw [h1] at hA; cases hA
 
 /-! ## records -/
 
